@@ -52,6 +52,9 @@ type job struct {
 	// session evaluate the same compiled tasks a second time. On the cluster one
 	// machine is used, so that the re-evaluation lands on the worker that ran them.
 	Reuse bool `json:"reuse,omitempty"`
+	// Gen: the generation of the input computed in this run (see fProg); the given
+	// files are always of generation 0.
+	Gen int `json:"gen,omitempty"`
 	// Tries > 1 (fault-free runs only): a failed run is repeated, on a fresh copy of the
 	// same files, up to Tries times; only a run that fails every time is reported as
 	// failed (an overloaded machine makes the in-process cluster lose tasks).
@@ -143,7 +146,7 @@ func setupProcess() {
 
 // runOnce runs the program once in a fresh session with the cache prefix on vol.
 // It returns nil if the run did not come back within hangAfter.
-func runOnce(p prog, op, kind string, vol *vfs.FS, upstream []int, reuse bool) *runObs {
+func runOnce(p prog, op, kind string, vol *vfs.FS, upstream []int, reuse bool, gen int) *runObs {
 	tag := int(atomic.AddInt64(&tagSeq, 1))
 	obs := &runObs{Rows: []string{}}
 	for rel := range vol.Files() {
@@ -195,7 +198,7 @@ func runOnce(p prog, op, kind string, vol *vfs.FS, upstream []int, reuse bool) *
 		if len(upstream) == 2 {
 			failShard, failAfter = upstream[0], upstream[1]
 		}
-		res, err := sess.Run(ctx, fProg, tag, p.Shape, op, prefix, p.Data, failShard, failAfter)
+		res, err := sess.Run(ctx, fProg, tag, p.Shape, op, prefix, p.Data, failShard, failAfter, gen)
 		if err != nil {
 			done <- out{nil, err, nil}
 			return
@@ -330,7 +333,7 @@ func runJob(j *job) *result {
 		for _, f := range j.Faults {
 			vol.FailAt(f.Label, f.Mode)
 		}
-		res.Run = runOnce(j.Prog, op, j.Exec, vol, j.Upstream, j.Reuse)
+		res.Run = runOnce(j.Prog, op, j.Exec, vol, j.Upstream, j.Reuse, j.Gen)
 		if res.Run == nil {
 			res.Hang = true
 			return res
